@@ -269,9 +269,8 @@ def invEigs [Zero α] [BEq α] [Max α] {d : Nat} (pw : α → α) (ridge : α) 
   fun i => if e i == 0 then 0 else pw (max (e i) ridge)
 
 /-- everything after `eigh` up to the fields handed to `_low_rank_pack`.
-`r = |compression_rank|`, `neg = compression_rank < 0`.  For `neg` with `padding_start = None`
-the Python expression `d - padding_start` raises; the model rolls by `0` there (all callers in
-the optimizer pass `padding_start`). -/
+`r = |compression_rank|`, `neg = compression_rank < 0`.  The roll for `neg` is by the number of padded
+dimensions `num_pad = d - padding_start`, `0` when `padding_start is None` (repaired, D21). -/
 def lowRankRootFields [Add α] [Mul α] [Div α] [Zero α] [One α] [BEq α] [Max α] [NatCast α]
     {d r : Nat} (hr : r ≤ d) (pw : α → α) (neg : Bool) (ps : Option Nat) (ridge : α)
     (e : Vec α d) (U : Mat α d d) : LRFields α d r :=
